@@ -64,7 +64,22 @@ def import_graphs(rng, n):
     """small sets of files importing each other: DAGs, cycles, self-imports, missing files, std"""
     cases = []
     names = ["a.tsh", "b.tsh", "c.tsh", "sub/d.tsh"]
-    bodies = ['func F() int {\n\treturn 1\n}\n', 'var G int = 2\nfunc Get() int {\n\treturn G\n}\n', 'print("top")\nfunc H(x int) int {\n\treturn x + 1\n}\n', '']
+    bodies = ['func F() int {\n\treturn 1\n}\n', 'var G int = 2\nfunc Get() int {\n\treturn G\n}\n', 'print("top")\nfunc H(x int) int {\n\treturn x + 1\n}\n', '',
+              # every kind of top-level statement in a file that is IMPORTED (the statements of an imported file pass through the registration
+              # loop of evaluateImports; round 9: C13-A, a type assertion there hit by `a, b := f()`)
+              'func pair() (int, string) {\n\treturn 7, "seven"\n}\nNumber, word := pair()\nvar A, b = pair()\nNumber, word = pair()\n',
+              'var so, se, code = @echo("x")\nO2, E2, C2 := @echo("y")\nso, se, code = @true()\n',
+              'for i := 0; i < 2; i++ {\n\tprint(i)\n}\nfor k, v := range []int{1} {\n\tprint(k, v)\n}\nif true {\n\tprint("t")\n} else {\n\tprint("e")\n}\nswitch 1 {\ncase 1:\n\tprint("one")\ndefault:\n\tprint("d")\n}\n',
+              'var Xs []int = []int{1}\nXs[2] = 5\nN := copy(Xs, []int{9})\nS := "abc"\nprint(len(Xs), S[1], S[0:2], N)\n',
+              'A := 1\nB, A := 2, 3\nA, B = B, A\nA += 1\nA++\nprint(A, B)\n',
+              'write("f.txt", "x")\nR := read("f.txt")\nE := exists("f.txt")\n@echo("side")\nI := input("p")\nprint(R, E, I)\n',
+              'panic("stop")\n', 'var U int\nvar V, W string\nvar Z []string\nvar P, Q = 1, "q"\n',
+              'func Void() {\n}\nfunc Two() (int, int) {\n\treturn 1, 2\n}\nVoid()\nTwo()\nprint(itoa(3), len("ab"))\n']
+    # directed: each body as a file imported by the main file, and as a file imported by an imported file
+    for body in bodies:
+        cases.append({"a.tsh": b'import l "b.tsh"\nprint("main")\n', "b.tsh": body.encode()})
+        cases.append({"a.tsh": b'import l "b.tsh"\nprint("main")\n', "b.tsh": b'import m "sub/d.tsh"\nprint("b")\n', "sub/d.tsh": body.encode()})
+        cases.append({"a.tsh": b'import (\n\tl "b.tsh"\n\tk "c.tsh"\n)\nprint("main")\n', "b.tsh": body.encode(), "c.tsh": b'import l "b.tsh"\n'})
     for _ in range(n):
         k = rng.randrange(1, 5)
         files = {}
